@@ -143,3 +143,150 @@ Proof.
   { induction recs as [|r recs IH]; intros b Hb; cbn [fold_left]; [exact Hb|]. apply IH, alloc_write_fit, Hb. }
   apply G. constructor.
 Qed.
+
+(* ================================================================== readers that report errors with data *)
+Lemma xdata_cons c f r : xdata ((c, f) :: r) = c ++ xdata r.
+Proof. reflexivity. Qed.
+Lemma xdata_quiet cs : xdata (quiet cs) = concat cs.
+Proof. induction cs as [|c r IH]; [reflexivity|]. cbn [quiet map]. rewrite xdata_cons. cbn [concat]. f_equal. exact IH. Qed.
+
+Lemma tail_flagged_tl c f r : tail_flagged ((c, f) :: r) -> tail_flagged r.
+Proof. intros H. inversion H; subst; [constructor|assumption]. Qed.
+Lemma tail_flagged_split c l f r : l <> [] -> tail_flagged ((c, f) :: r) -> tail_flagged ((l, f) :: r).
+Proof. intros Hl H. inversion H; subst; [constructor; intros _; exact Hl|constructor; assumption]. Qed.
+Lemma tail_flagged_quiet cs : tail_flagged (quiet cs).
+Proof. induction cs as [|c r IH]; [constructor|]. cbn [quiet map]. constructor. exact IH. Qed.
+
+(* ReadFull of [len a] bytes from a reader whose data starts with [a]: succeeds with [a],
+   whatever error the completing Read reports *)
+Lemma read_fullx_ok cs : forall got a rest,
+  tail_flagged cs -> xdata cs = a ++ rest ->
+  exists cs', read_fullx_from got (len a) cs = RFX_ok a cs' /\ xdata cs' = rest /\ tail_flagged cs'.
+Proof.
+  induction cs as [|[c f] r IH]; intros got a rest Htf H.
+  - unfold xdata in H. cbn [map concat] in H. symmetry in H. apply app_eq_nil in H. destruct H; subst.
+    exists []. split; [reflexivity|]. split; [reflexivity|constructor].
+  - cbn [read_fullx_from]. destruct (N.eqb_spec (len a) 0) as [E|E].
+    { apply len_zero in E. subst a. exists ((c, f) :: r). split; [reflexivity|]. split; [exact H|exact Htf]. }
+    rewrite xdata_cons in H. apply app_eq_app in H. destruct H as [l [[Hc Hr]|[Ha Hr]]].
+    + (* the chunk reaches the end of the request: c = a ++ l *)
+      subst c. destruct l as [|x l].
+      * rewrite app_nil_r in *. rewrite N.ltb_irrefl, N.eqb_refl.
+        exists r. split; [reflexivity|]. split; [symmetry; exact Hr|eapply tail_flagged_tl; exact Htf].
+      * assert (Hlen : len a < len (a ++ x :: l)) by (rewrite len_app, len_cons; lia).
+        destruct (N.ltb_spec (len (a ++ x :: l)) (len a)); [lia|].
+        destruct (N.eqb_spec (len (a ++ x :: l)) (len a)); [lia|].
+        rewrite firstn_len_app, skipn_len_app. exists ((x :: l, f) :: r). split; [reflexivity|].
+        split; [rewrite xdata_cons; symmetry; exact Hr|].
+        eapply tail_flagged_split; [discriminate|exact Htf].
+    + (* the chunk ends inside the request: a = c ++ l *)
+      subst a. destruct l as [|x l].
+      * rewrite app_nil_r in *. rewrite N.ltb_irrefl, N.eqb_refl.
+        exists r. split; [reflexivity|]. split; [exact Hr|eapply tail_flagged_tl; exact Htf].
+      * assert (Hlen : len c < len (c ++ x :: l)) by (rewrite len_app, len_cons; lia).
+        destruct (N.ltb_spec (len c) (len (c ++ x :: l))); [|lia].
+        inversion Htf as [|? ? Hf|? ? Htr]; subst.
+        { unfold xdata in Hr. cbn [map concat] in Hr. discriminate. }
+        replace (len (c ++ x :: l) - len c) with (len (x :: l)) by (rewrite len_app; lia).
+        destruct (IH (got || negb (len c =? 0)) (x :: l) rest Htr Hr) as [cs' [H1 [H2 H3]]].
+        rewrite H1. exists cs'. auto.
+Qed.
+
+(* after the data: a clean io.EOF *)
+Lemma read_fullx_eof cs n : tail_flagged cs -> xdata cs = [] -> n <> 0 -> read_fullx_from false n cs = RFX_eof.
+Proof.
+  intros Htf. induction Htf as [|c f Hf|c r Htr IH]; intros H Hn; cbn [read_fullx_from];
+    destruct (N.eqb_spec n 0); try contradiction.
+  - reflexivity.
+  - rewrite xdata_cons in H. apply app_eq_nil in H. destruct H as [-> _]. cbn [len].
+    destruct (N.ltb_spec 0 n); [|lia]. change (0 =? 0) with true. cbn [negb orb].
+    destruct f; [|reflexivity|exfalso; apply Hf; reflexivity].
+    rewrite N.sub_0_r. cbn [read_fullx_from]. destruct (N.eqb_spec n 0); [contradiction|reflexivity].
+  - rewrite xdata_cons in H. apply app_eq_nil in H. destruct H as [-> Hr]. cbn [len].
+    destruct (N.ltb_spec 0 n); [|lia]. change (0 =? 0) with true. cbn [negb orb].
+    rewrite N.sub_0_r, (IH Hr Hn). reflexivity.
+Qed.
+
+Lemma recv_frames_x msgs : forall frames fuel cs,
+  Forall sendable msgs -> Forall2 frame_of msgs frames -> tail_flagged cs ->
+  xdata cs = concat frames -> (length msgs < fuel)%nat ->
+  recv_msgs_xf fuel cs = map Some msgs.
+Proof.
+  induction msgs as [|p msgs IH]; intros frames fuel cs Hs Hf Htf Hc Hfuel.
+  - inversion Hf; subst. destruct fuel as [|fuel]; [cbn in Hfuel; lia|].
+    cbn [recv_msgs_xf]. unfold read_fullx. rewrite read_fullx_eof; [reflexivity|exact Htf|exact Hc|discriminate].
+  - inversion Hf as [|? fr ? frs (xs & HP & Hfr) Hf']; subst.
+    inversion Hs as [|? ? (Hwf & Hlt) Hs']; subst.
+    destruct fuel as [|fuel]; [lia|]. cbn [length] in Hfuel.
+    cbn [recv_msgs_xf]. unfold read_fullx.
+    set (body := encode_packet_ord xs p) in *.
+    assert (Hlen : len body = size_packet p) by (apply encode_packet_ord_len; exact HP).
+    cbn [concat] in Hc. unfold frame in Hc. rewrite <- app_assoc in Hc.
+    destruct (read_fullx_ok cs false (be32 (len body)) (body ++ concat frs) Htf Hc) as [cs1 [H1 [Hc1 Htf1]]].
+    change (len (be32 (len body))) with 4 in H1. rewrite H1.
+    rewrite be32_roundtrip by (rewrite Hlen; exact Hlt).
+    pose proof (packet_roundtrip_any_order p xs Hwf HP) as Hrt. fold body in Hrt.
+    destruct (N.eqb_spec (len body) 0) as [E|E].
+    + apply len_zero in E. rewrite E in Hrt, Hc1. rewrite decode_packet_nil in Hrt.
+      inversion Hrt; subst. cbn [map]. f_equal.
+      apply (IH frs); auto. lia.
+    + destruct (read_fullx_ok cs1 false body (concat frs) Htf1 Hc1) as [cs2 [H2 [Hc2 Htf2]]].
+      rewrite H2. unfold decode_packet. rewrite Hrt. cbn [option_map fst map]. f_equal.
+      apply (IH frs); auto. lia.
+Qed.
+
+(* every fragmentation, and the final Read may deliver its bytes together with io.EOF (or
+   with any other error): nothing is lost *)
+Theorem recv_all_fragmentation_x_any_order msgs frames chunks :
+  Forall sendable msgs -> Forall2 frame_of msgs frames -> tail_flagged chunks ->
+  xdata chunks = concat frames -> recv_msgs_x chunks = map Some msgs.
+Proof.
+  intros Hs Hf Htf Hc. unfold recv_msgs_x. apply (recv_frames_x msgs frames); auto.
+  rewrite Hc. pose proof (frames_length msgs frames Hf). lia.
+Qed.
+
+Theorem recv_all_fragmentation_x msgs chunks :
+  Forall sendable msgs -> tail_flagged chunks ->
+  xdata chunks = concat (map send_msg msgs) -> recv_msgs_x chunks = map Some msgs.
+Proof.
+  intros Hs Htf Hc. apply (recv_all_fragmentation_x_any_order msgs (map send_msg msgs)); auto.
+  clear. induction msgs as [|p msgs IH]; cbn [map]; constructor; [|exact IH].
+  exists (pxattrs p). split; [apply Permutation_refl|reflexivity].
+Qed.
+
+(* ------------------------------------------------------------------ the extension is conservative *)
+Lemma read_full_from_0 got cs : read_full_from got 0 cs = RF_ok [] cs.
+Proof. destruct cs; reflexivity. Qed.
+
+Lemma read_full_sim cs : forall got n,
+  read_fullx_from got n (quiet cs) =
+  match read_full_from got n cs with
+  | RF_ok b cs' => RFX_ok b (quiet cs')
+  | RF_eof => RFX_eof
+  | RF_short => RFX_err
+  end.
+Proof.
+  induction cs as [|c r IH]; intros got n.
+  - cbn [quiet map read_fullx_from read_full_from]. destruct (n =? 0); [reflexivity|]. destruct got; reflexivity.
+  - cbn [quiet map read_fullx_from read_full_from]. fold (quiet r).
+    destruct (N.eqb_spec n 0) as [E|E]; [reflexivity|].
+    destruct (N.ltb_spec (len c) n) as [H|H].
+    + destruct (N.leb_spec (len c) n); [|lia]. rewrite IH.
+      destruct (read_full_from (got || negb (len c =? 0)) (n - len c) r); reflexivity.
+    + destruct (N.eqb_spec (len c) n) as [E2|E2].
+      * destruct (N.leb_spec (len c) n); [|lia].
+        replace (n - len c) with 0 by lia. rewrite read_full_from_0, app_nil_r. reflexivity.
+      * destruct (N.leb_spec (len c) n); [lia|]. reflexivity.
+Qed.
+
+Lemma recv_msgs_sim fuel : forall cs, recv_msgs_xf fuel (quiet cs) = recv_msgs_f fuel cs.
+Proof.
+  induction fuel; intros cs; [reflexivity|]. cbn [recv_msgs_xf recv_msgs_f]. unfold read_fullx, read_full.
+  rewrite read_full_sim. destruct (read_full_from false 4 cs) as [h cs1| |]; try reflexivity.
+  destruct (be32_dec h =? 0); [rewrite IHfuel; reflexivity|].
+  rewrite read_full_sim. destruct (read_full_from false (be32_dec h) cs1) as [b cs2| |]; try reflexivity.
+  destruct (decode_packet b); [rewrite IHfuel|]; reflexivity.
+Qed.
+
+Theorem recv_msgs_quiet cs : recv_msgs_x (quiet cs) = recv_msgs cs.
+Proof. unfold recv_msgs_x, recv_msgs. rewrite xdata_quiet. apply recv_msgs_sim. Qed.
